@@ -22,7 +22,8 @@ def P0 (Lx Ly Lz : Nat) (x y z : Int) : Prop :=
   (InAp 4 (Lx - 3) x ∧ InAp 4 (Ly - 4) y ∧ InAp (2 * Lz - 4) 1 z ∧ (x + y + z) % 4 = 2)
 
 /-- the number of kept lower triangles of axis 0 along the hole edge `x = y = 3` -/
-def qn (Lx Ly Lz : Nat) : Nat := if 4 ≤ Lx ∧ 4 ≤ Ly then (Lz - 5) / 2 else 0
+def qn (Lx Ly Lz : Nat) : Nat :=
+  if (4 ≤ Lx ∧ 4 ≤ Ly) ∨ (Lx = 3 ∧ 5 ≤ Ly) then (Lz - 5) / 2 else 0
 
 /-- the kept lower triangles of axis 0 along the hole edge `x = y = 3` -/
 def QR (Lx Ly Lz : Nat) (x y z : Int) : Prop :=
@@ -69,7 +70,7 @@ theorem ax0_mp (hx : 3 ≤ Lx) (hy : 4 ≤ Ly) (hz : 5 ≤ Lz) (x y z : Int)
       have e : z + 2 + -1 = z + 1 := by omega
       rw [e]
       exact ⟨q1, q2, q3, p4, p5, p6⟩
-  · right; right; right; right; unfold QC at hq; unfold qn; rw [if_pos ⟨hq.2.2.2.2.2.1, hq.2.2.2.2.2.2⟩]; omega
+  · right; right; right; right; unfold QC at hq; unfold qn; rw [if_pos hq.2.2.2.2.2]; omega
 
 theorem ax0_abs (hx : 3 ≤ Lx) (hy : 4 ≤ Ly) (hz : 5 ≤ Lz) (x y z : Int)
     (h : P0 Lx Ly Lz x y z) : B0 Lx Ly Lz x y z := by
@@ -144,7 +145,7 @@ theorem ax0_mpr (hx : 3 ≤ Lx) (hy : 4 ≤ Ly) (hz : 5 ≤ Lz) (x y z : Int)
       intro hp; apply hp.2.2.1; rw [sgnY_0]; unfold Hole; omega
   · -- the kept lower triangles along the hole edge (3, 3, ·)
     obtain ⟨rfl, rfl, hz1, hz2, hz3⟩ := h
-    have hg : 4 ≤ Lx ∧ 4 ≤ Ly := by
+    have hg : (4 ≤ Lx ∧ 4 ≤ Ly) ∨ (Lx = 3 ∧ 5 ≤ Ly) := by
       unfold qn at hz2
       by_contra hn
       rw [if_neg hn] at hz2
@@ -162,7 +163,7 @@ theorem ax0_mpr (hx : 3 ≤ Lx) (hy : 4 ≤ Ly) (hz : 5 ≤ Lz) (x y z : Int)
       · intro hh; unfold Hole at hh; omega
       · intro hh; unfold Hole at hh; omega
     · unfold SelC QC; right; right; right
-      exact ⟨rfl, Or.inr (Or.inr (Or.inr ⟨rfl, rfl, by omega, by omega, by omega, hg.1, hg.2⟩))⟩
+      exact ⟨rfl, Or.inr (Or.inr (Or.inr ⟨rfl, rfl, by omega, by omega, by omega, hg⟩))⟩
 
 theorem ax0 (hx : 3 ≤ Lx) (hy : 4 ≤ Ly) (hz : 5 ≤ Lz) (x y z : Int) :
     (TS Lx Ly Lz 0 x y z ∨ P0 Lx Ly Lz x y z) ↔ B0 Lx Ly Lz x y z :=
